@@ -255,6 +255,7 @@ struct Node {
   Type *func_ty;
   Node *args;
   bool pass_by_stack;
+  bool stack_pad; // 8 bytes of padding precede this stack argument
   Obj *ret_buffer;
 
   // Goto or labeled statement, or labels-as-values
